@@ -75,7 +75,7 @@ def r1_r2_reshape(ctx):
             N = e1.Norm(c, env)
             lv, rv = N.norm(l), N.norm(r)
             got = "%s == %s" % (lv, rv)
-            ok = ((lv == prods[0] and rv == prods[1]) or (lv == prods[1] and rv == prods[0])) and i0 == 0 and all(len(b) == (3 if k == "Triple" else 1) for (k, b) in sides)
+            ok = ((lv == prods[0] and rv == prods[1]) or (lv == prods[1] and rv == prods[0])) and _only_pure_lets(st[:i0]) and all(len(b) == (3 if k == "Triple" else 1) for (k, b) in sides)
         ctx.check("R14.1", inst + ":count-assertion", ok, "count-assertion:" + short(got, 90), where, "assert_eq!(%s, %s) first" % (prods[0], prods[1]),
                   "reshape %s asserts `%s`; it must compare the old element count %s with the new one %s (a wrong factor refuses valid reshapes and "
                   "accepts truncating ones)" % (inst, got, prods[0], prods[1]))
@@ -261,6 +261,19 @@ def r3_constructors(ctx):
                 else:
                     ok = False
             ctx.check("R14.3", "%s:%s" % (nm, rank), ok and dims == [h for (_, h) in binds], "%s-dims:%s" % (nm, rank), c.loc(fn, arm["body"]), "data dims = shape components, filled with %s" % lit)
+
+
+def _only_pure_lets(stmts):
+    """statements before the assertion: plain `let`s that neither touch the tensor's data nor mutate anything"""
+    for s_ in stmts:
+        if s_.get("k") != "let":
+            return False
+        for x in walk(s_):
+            if x.get("k") in ("assign", "assignop") or (x.get("k") == "field" and x["f"] == "data"):
+                return False
+            if x.get("k") in ("mcall", "call") and any(a.get("k") == "ref" and a.get("mut") for a in ([x["recv"]] if x.get("k") == "mcall" else []) + list(x["args"])):
+                return False
+    return True
 
 
 def run(ctx):
